@@ -14,6 +14,9 @@
 #include "devsim.h"
 void supla_esp_wifi_init(void);
 extern int c04_log_wifi;
+/* uptime.c keeps its state in a non-static global; an "aged device" is simulated by presetting the cycle count */
+typedef struct { uint32 cycles; uint32 last_system_time; ETSTimer timer; } c4_uptime_t;
+extern c4_uptime_t usermain_uptime;
 
 enum { L_IDLE = 0, L_PENDING = 1, L_LIVE = 2, L_CLOSING = 3 };
 static int c4_link = L_IDLE, c4_conn = 0, c4_live_res = 0, c4_dead_res = -12;
@@ -104,8 +107,19 @@ static void c4_state(void) {
 static void run_case(int n, char **lines) {
   static unsigned char buf[70000];
   int i = 0;
-  if (n > 0 && !strncmp(lines[0], "CFG", 3)) { ds_apply_cfg(lines[0]); c4_dead_res = (int)kv(lines[0], "dead", -12); i = 1; }
-  else ds_apply_cfg("");
+  ds_apply_cfg("");
+  if (n > 0 && !strncmp(lines[0], "CFG", 3)) {
+    /* CFG <boot> <dead_result> <nchannels> <uptime cycles> <lateness_us>... :   (positional; relays on gpio 4.. with channels 0..) */
+    long long v[70]; int k = 0; char *p = lines[0] + 3;
+    while (*p && *p != ':' && k < 70) { while (*p == ' ') p++; if (!*p || *p == ':') break; v[k++] = strtoll(p, &p, 0); }
+    if (k > 0) v_boot = (unsigned)v[0];
+    if (k > 1) c4_dead_res = (int)v[1];
+    int nch = k > 2 ? (int)v[2] : 0; if (nch > 8) nch = 8;
+    for (int r = 0; r < nch; r++) { v_board.relay[r].gpio = 4 + r; v_board.relay[r].channel = r; } v_board.nrelay = nch;
+    if (k > 3) usermain_uptime.cycles = (uint32)v[3];
+    v_lateness_n = 0; for (int j = 4; j < k && v_lateness_n < 64; j++) v_lateness_us[v_lateness_n++] = (unsigned)v[j];
+    i = 1;
+  }
   c4_boot();
   for (; i < n; i++) {
     char *l = lines[i];
